@@ -61,7 +61,11 @@ var _ p.DataProvider = urlDataProvider{}
 func (u urlDataProvider) Get(key string) any {
 	// if query param ends with [] its always a slice
 	if len(key) > 2 && key[len(key)-2:] == "[]" {
-		return u.Data[key]
+		if vals, ok := u.Data[key]; ok {
+			return vals
+		}
+		// a missing parameter is absent. Not an empty list
+		return nil
 	}
 
 	if len(u.Data[key]) > 1 {
